@@ -45,7 +45,9 @@ StrPool == << <<97>>,                                             \* a
               <<97, 32, 32, 98>>,                                 \* "a  b"   (differs from the previous one only in the number of spaces)
               <<97, 32, 32, 32, 98>>,                             \* "a   b"
               <<97, 10, 32, 98>>,                                 \* "a" LF SPACE "b"    (what an LDIF unfolder would remove)
-              <<97, 13, 10, 32, 98>> >>                           \* "a" CR LF SPACE "b"
+              <<97, 13, 10, 32, 98>>,                             \* "a" CR LF SPACE "b"
+              <<97, 9, 98>>,                                      \* "a" TAB "b"
+              <<115, 101, 101, 32, 88, 45, 98, 32>> >>            \* "see X-b "   (a space followed by X- inside a value)
 \* the name after the "X-" prefix; the second one itself begins with "X-" (the sentence reads X-X-FOO)
 XNamePool == << <<79, 82, 73, 71, 73, 78>>, <<88, 45, 70, 79, 79>>, <<65, 66, 67, 95, 68, 69, 70, 45, 71, 72, 73>>, <<45>>, <<97>> >>
 LenPool == << <<48>>, <<49>>, <<54, 52>>, <<50, 49, 52, 55, 52, 56, 51, 54, 52, 55>>, <<52, 50, 57, 52, 57, 54, 55, 50, 57, 54>> >>
